@@ -60,6 +60,10 @@ def generate(seed, tier, index):
         if rng.random() < 0.8:
             traffic.append(['act', s, 'get_registry', 0, 0, rng.randrange(1 << 30), 0])
     traffic += c15.gen_gdb_traffic(rng, seed, nslots, n, p_destroy=0.0, p_foreign_thread=0.03)
+    if nslots >= 2 and rng.random() < 0.2:
+        # aim at `wlconnection <x>` where <x> is another connection's letter and an earlier connection's app id
+        from . import c06
+        traffic = [it + [0] if it[0] == 'act' and len(it) == 6 else it for it in c06.app_id_flavour(rng, traffic, nslots)]
     # vocabulary: replay the traffic in a plain world (slot -> connection in order of first use)
     w = W.World(seed, 0, ['client'], rig.REPO)
     slotconn = {}
@@ -184,8 +188,9 @@ def execute(sc):
     names = {ci: W.letters(k, True) for k, ci in enumerate(sim.order)}
     bstate = S.initial_state(cfg.get('break_model'), 'bang')
     fstate = S.initial_state(cfg.get('filter_model'), 'star')
+    sel = S.Selection()
     selected = None
-    opened = []
+    opened = sel.opened
     events = [(h['seq_before'], 'hit', h) for h in sim.hits] + [(c['seq'], 'cmd', c) for c in sim.cmd_log]
     events.sort(key=lambda e: e[0])
     outs_by_seq = [(s, p) for s, k, p in sim.rec.events if k == 'out']
@@ -200,8 +205,7 @@ def execute(sc):
                 V.add('C10/exception', 'stop:' + c18.trigger_of(e['exception']), 'exception left stop() at %s: %s' % (cl.brief(), e['exception'][-1000:]))
                 continue
             nm = names[cl.conn]
-            if nm not in opened:
-                opened.append(nm)
+            sel.saw(cl, nm)
             sel_ok = selected is None or selected == nm
             bv = bstate.value(cl, nm) if sel_ok else S.MUSTNOT
             outs = [p for s, p in outs_by_seq if e['seq_before'] <= s < e['seq_after']]
@@ -247,11 +251,8 @@ def execute(sc):
             if t in ('breakpoint', 'filter') and meta.get('m') is not None and not meta.get('bad'):
                 (bstate if t == 'breakpoint' else fstate).apply(meta['m'])
             elif t == 'connection':
-                to = meta.get('to')
-                if to == 'all':
-                    selected = None
-                elif to is not None and not meta.get('bad') and to.upper() in opened:
-                    selected = to.upper()
+                sel.command(meta)
+                selected = sel.selected
     nontrivial = n_halt > 0 and n_pass > 0 and len(sim.cmd_log) > 0
     if n_halt:
         V.bump('messages_that_halted', n_halt)
